@@ -451,6 +451,11 @@ func runC06(env *vk.Env) {
 		in := append(bytesOf(ev.Bytes), wireTail(t)...)
 		tr.Add(wireDecEvent(t, variant, in, wirePriors[rng.Intn(len(wirePriors))], v, rng.Intn(2) == 0, "valid"))
 		env.Distinct("rand/" + t.class())
+		// the value as the last thing in the stream, read through a plain io.Reader: for streams of even length its
+		// last byte(s) arrive together with io.EOF
+		if rng.Intn(3) == 0 {
+			tr.Add(wireDecEvent(t, variant, bytesOf(ev.Bytes), wirePriors[rng.Intn(len(wirePriors))], v, true, "valid-ends-stream"))
+		}
 		// the same value behind a length prefix (or as a VarInt / VarLong) that the sender did not write in its shortest
 		// form: the decoder accepts such prefixes, so the count it reports must be that of the bytes it took
 		if max := wireLeadingVar(t); max > 0 && rng.Intn(2) == 0 {
